@@ -2,6 +2,7 @@
 package gen2
 
 import (
+	"sort"
 	"bytes"
 	"fmt"
 	"io"
@@ -258,10 +259,51 @@ func wireLevel(run *ev.Run, set *bridge.Set, rng *rand.Rand, perMethod int) {
 						}
 					}
 				}
-				if bad != "" {
+				// ... and nothing else: every entity the caller supplied must arrive, equal to its reference prune
+				var supplied []*model.Value
+				switch {
+				case call.Entity != nil:
+					supplied = []*model.Value{call.Entity}
+				case len(call.Entities) > 0:
+					supplied = call.Entities
+				default:
+					for _, e := range call.ByKey {
+						supplied = append(supplied, e)
+					}
+				}
+				lost := ""
+				if len(supplied) != len(entities) {
+					lost = fmt.Sprintf("%d entities supplied, %d on the wire", len(supplied), len(entities))
+				} else {
+					var wantTexts, gotTexts []string
+					for _, v := range supplied {
+						wantTexts = append(wantTexts, model.Show(refcodec.FillDefaults(s, schemaT, refcodec.Prune(s, schemaT, v, excl))))
+					}
+					for _, e := range entities {
+						gv, derr := refcodec.FromTree(s, schemaT, e, refcodec.DecodeOpts{}, "")
+						if derr != nil {
+							gotTexts = append(gotTexts, "UNREADABLE: "+derr.Error())
+							continue
+						}
+						gotTexts = append(gotTexts, model.Show(refcodec.FillDefaults(s, schemaT, gv)))
+					}
+					sort.Strings(wantTexts)
+					sort.Strings(gotTexts)
+					for k := range wantTexts {
+						if wantTexts[k] != gotTexts[k] {
+							lost = "an entity on the wire differs from the pruned entity: " + trunc(gotTexts[k]) + " vs " + trunc(wantTexts[k])
+							break
+						}
+					}
+				}
+				switch {
+				case bad != "":
 					desc["transmitted_excluded_field"] = bad
 					run.Violation(GENERATION+"/wire/"+m.Name+"/client-transmitted-excluded-field", desc)
-				} else if len(entities) > 0 {
+				case lost != "":
+					desc["detail"] = lost
+					run.Violation(GENERATION+"/wire/"+m.Name+"/client-dropped-or-changed-more-than-the-excluded-fields", desc)
+				case len(entities) > 0:
 					run.Distinct("wire|client|" + res.Namespace + "|" + m.Name)
 				}
 			}
